@@ -256,6 +256,9 @@ func c16Payloads() []payload {
 		{desc: "time dim", dims: d(map[string]interface{}{"d1": time.Unix(1, 0)}), vals: d(map[string]interface{}{"a": 1.0})},
 		{desc: "byte-slice dims (unhashable as map keys)", dims: d(map[string]interface{}{"d1": []byte{1, 2}, "d2": []byte("x")}), vals: d(map[string]interface{}{"a": 1.0})},
 		{desc: "many dims", dims: manyDims(200), vals: d(map[string]interface{}{"a": 1.0})},
+		{desc: "a dimension value of 70 KB (a row file stores key lengths in 16 bits)", dims: d(map[string]interface{}{"d1": strings.Repeat("x", 70000), "d2": 1}), vals: d(map[string]interface{}{"a": 1.0})},
+		{desc: "5000 dims, 90 KB of key", dims: manyDims(5000), vals: d(map[string]interface{}{"a": 1.0})},
+		{desc: "a dimension value of exactly 65535 bytes", dims: d(map[string]interface{}{"d1": strings.Repeat("y", 65535)}), vals: d(map[string]interface{}{"a": 1.0})},
 		{desc: "empty key and empty names", dims: d(map[string]interface{}{"": ""}), vals: d(map[string]interface{}{"": 1.0})},
 		{desc: "magic _points value", dims: base, vals: d(map[string]interface{}{"_points": 5.0, "a": 1.0})},
 		{desc: "magic _point value string", dims: base, vals: d(map[string]interface{}{"_point": "x"})},
@@ -553,6 +556,26 @@ func runC16Worker(e *Env) error {
 				})
 				if res["subquery"] == "panic" && res["alive"] == "ok" {
 					res["alive"] = "panic" // an error is fine, a panic reaching the caller is not
+				}
+				if res["alive"] == "ok" {
+					// ... and stays readable once the memstore has been flushed (whatever was accepted must fit the file format)
+					db.FlushAll()
+					res["alive"] = classify(func() error {
+						for _, mem := range []bool{false, true} {
+							_, rows, err := runQuery(db, "SELECT _points FROM t WHERE d1 = 'v1' OR d1 = 'v2' GROUP BY _", mem)
+							if err != nil {
+								return err
+							}
+							total := 0.0
+							for _, r := range rows {
+								total += r.Vals[0]
+							}
+							if int(total) != nValid {
+								return fmt.Errorf("valid points lost after the flush: have %v want %d", total, nValid)
+							}
+						}
+						return nil
+					})
 				}
 			}
 		}
